@@ -28,6 +28,7 @@ type SeqScenario struct {
 	Rows       []map[string]any  `json:"rows"`    // typed input rows (see Decode)
 	MaxPar     int               `json:"maxpart"` // WithAnalyticMaxPartitions when > 0
 	Chan       bool              `json:"chan"`    // also read ToChannel()
+	ChanHold   bool              `json:"chanhold"` // the channel reader starts only when every row has been processed (a consumer that falls behind: the engine may shed whole batches, never merge or split them)
 	Stop       bool              `json:"stop"`    // call Stop before the quiesce event (CEP flush)
 	Sort       string            `json:"sort"`    // sort delivered rows of a batch by this column (when the statement leaves order open)
 	Tables     []SeqTable        `json:"tables"`
@@ -59,6 +60,7 @@ type SeqPerf struct {
 	BlockMs  int     `json:"blockms"`
 	SlowSink int     `json:"slowsink"` // microseconds the sync sink sleeps per batch (consumer slower than producer)
 	WinOut   int     `json:"winout"`   // window output buffer size
+	ResChan  int     `json:"reschan"`  // result channel size
 }
 
 // perfOptions turns a SeqPerf into instance options (nil: defaults).
@@ -78,6 +80,9 @@ func perfOptions(p *SeqPerf) []streamsql.Option {
 	}
 	if p.WinOut > 0 {
 		pc.BufferConfig.WindowOutputSize = p.WinOut
+	}
+	if p.ResChan > 0 {
+		pc.BufferConfig.ResultChannelSize = p.ResChan
 	}
 	if p.MinInc > 0 {
 		pc.OverflowConfig.ExpansionConfig.MinIncrement = p.MinInc
@@ -240,9 +245,18 @@ func RunSeq(sc SeqScenario) (evs []Ev, inconclusive string) {
 		s.PrintTable()
 	}
 	chDone := make(chan struct{})
+	chGo := make(chan struct{})
+	if !sc.ChanHold {
+		close(chGo)
+	}
 	if sc.Chan {
 		ch := s.ToChannel()
 		go func() {
+			select {
+			case <-chGo:
+			case <-chDone:
+				return
+			}
 			for {
 				select {
 				case rs := <-ch:
@@ -428,7 +442,11 @@ func RunSeq(sc SeqScenario) (evs []Ev, inconclusive string) {
 	if ps := cl.Panics(); len(ps) > 0 {
 		in.Log(Ev{"tr": sc.Tr, "e": "panic", "where": "engine goroutine (recovered)", "msg": ps[0]})
 	}
-	if sc.Chan { // let the channel reader catch up: one batch per sink delivery (unless the engine dropped some: bounded wait)
+	if sc.ChanHold {
+		close(chGo) // the lagging consumer finally reads what the channel still holds
+		time.Sleep(150 * time.Millisecond)
+	}
+	if sc.Chan && !sc.ChanHold { // let the channel reader catch up: one batch per sink delivery (unless the engine dropped some: bounded wait)
 		in.WaitFor(500*time.Millisecond, func() bool {
 			no, nc := 0, 0
 			for _, e := range in.events {
